@@ -633,6 +633,7 @@ var grammarOps = []struct {
 	{"foreign-submodule", 6, opForeignSubmodule},
 	{"share-name", 7, opShareName},
 	{"amplifier", 4, opAmplifier},
+	{"path-argument", 18, opPathArgument},
 }
 
 // mutateSet applies 1–3 grammar-aware operators to a copy of the set.
